@@ -423,6 +423,10 @@ def u_reject():
     Q2 = "Qint[2]"
     add(["a: %s" % Q2], Q2, ["while a > 0:", "    a = a - 1", "return a"])
     add(["a: %s" % Q2, "b: %s" % Q2, "c: %s" % Q2], "bool", "return a < b < c")
+    add(["a: %s" % Q2, "b: %s" % Q2, "c: %s" % Q2], "bool", "return a <= b <= c")
+    add(["a: %s" % Q2], "bool", "return 0 < a < 3")
+    add(["a: %s" % Q2, "b: %s" % Q2], "bool", "return a == b != 2")
+    add(["a: bool", "b: bool", "c: bool"], "bool", "return a == b == c")
     add(["a: %s" % Q2, "b: %s" % Q2], Q2, "return a // b")
     add(["a: %s" % Q2], Q2, "return a // 2")
     add(["a: %s" % Q2, "b: %s" % Q2], Q2, "return a / b")
